@@ -155,7 +155,11 @@ type Config struct {
 	ClockStart       int64 // unix; 0 => GenesisTime + 10 years
 	SigCache         bool
 	Checkpoints      []chaincfg.Checkpoint
+	// FFLDB, when set (verif builds only), opens the store through hook H1 with an I/O observer and limits.
+	FFLDB *FFLDBOpts
 }
+
+var openHooked func(dir string, net wire.BitcoinNet, create bool, o *FFLDBOpts) (database.DB, error)
 
 // Node is a live integrated node.
 type Node struct {
@@ -178,9 +182,17 @@ func Open(dir string, cfg Config, clock *Clock) (*Node, error) {
 	}
 	var db database.DB
 	var err error
-	if _, serr := os.Stat(dir + "/metadata"); serr == nil {
+	_, serr := os.Stat(dir + "/metadata")
+	exists := serr == nil
+	switch {
+	case cfg.FFLDB != nil && openHooked != nil:
+		if !exists {
+			os.MkdirAll(dir, 0o755)
+		}
+		db, err = openHooked(dir, cfg.Params.Net, !exists, cfg.FFLDB)
+	case exists:
 		db, err = database.Open("ffldb", dir, cfg.Params.Net)
-	} else {
+	default:
 		os.MkdirAll(dir, 0o755)
 		db, err = database.Create("ffldb", dir, cfg.Params.Net)
 	}
